@@ -11,7 +11,7 @@ from .absint import Obj, Seq, Union, alts_of, interp
 from .b09lib import LIB_REL, b09lib
 from .core import AnalysisError, Ctx, IdiomNotFound, rule
 from .decoders import DECODERS, decoderfacts
-from .pyast import ast_contains, call_name, names_loaded, pyfacts, unparse
+from .pyast import resolve_alias, ast_contains, call_name, names_loaded, pyfacts, unparse
 from .rules_abs import rule_values, walk
 
 VISITORS_REL = "coco/b09/visitors.py"
@@ -55,11 +55,11 @@ def e10b(ctx: Ctx):
                 if isinstance(n, (ast.Assign, ast.AugAssign)):
                     for t in n.targets if isinstance(n, ast.Assign) else [n.target]:
                         if isinstance(t, ast.Subscript):
-                            ch = _attr_chain(t.value)
+                            ch = _attr_chain(resolve_alias(fn, t.value))
                             if ch and ch[0] == param:
                                 sites.append((ch[1:], n.lineno, "item assignment"))
                 if isinstance(n, ast.Call) and isinstance(n.func, ast.Attribute) and n.func.attr in ("append", "extend", "insert", "pop", "remove"):
-                    ch = _attr_chain(n.func.value)
+                    ch = _attr_chain(resolve_alias(fn, n.func.value))
                     if ch and ch[0] == param:
                         sites.append((ch[1:], n.lineno, f".{n.func.attr}()"))
             for chain, line, how in sites:
@@ -107,7 +107,9 @@ def e10c(ctx: Ctx):
             sources.append((n.args[0], n.lineno))
     ctx.need(sources, "visit_data_statement", "no rewrite of a DATA item found")
     for i, (src, line) in enumerate(sources):
-        ok = isinstance(src, ast.Call) and call_name(src) == "str" and len(src.args) == 1 and isinstance(src.args[0], ast.Attribute) and src.args[0].attr == "literal"
+        src = resolve_alias(fn, src)
+        inner = resolve_alias(fn, src.args[0]) if isinstance(src, ast.Call) and call_name(src) == "str" and len(src.args) == 1 else None
+        ok = isinstance(inner, ast.Attribute) and inner.attr == "literal"
         ctx.ob(
             f"rewrite#{i + 1}",
             ok,
@@ -116,7 +118,7 @@ def e10c(ctx: Ctx):
             line=line,
             witness="" if ok else "10 DATA &HFF,,3",
             # str() of the item object itself is its default repr: it contains a memory address
-            props=["C03", "C20", "C15", "C12"] if (isinstance(src, ast.Call) and call_name(src) in ("str", "repr") and src.args and isinstance(src.args[0], ast.Name)) else None,
+            props=["C03", "C20", "C15", "C12"] if (isinstance(src, ast.Call) and call_name(src) in ("str", "repr") and src.args and isinstance(inner, ast.Name)) else None,
         )
 
 
